@@ -14,13 +14,30 @@ def simple(prop, config="pm", **kw):
     return run
 
 
+def run_c09(ctx):
+    b = ctx.build("pm")
+    ctx.run_vh(b, "C09")
+    log = os.path.join(ctx.run_dir, "c09.log.jsonl")
+    ctx.run_py("check_hash_log.py", [log, "{out}"], "C09-offline-python")
+
+
 PLANS = {
-    "C19": {
-        "level": "exploration",
-        "run": simple("C19"),
-        "min_evaluations": {"quick": 100000, "thorough": 5000000},
-        "min_distinct": {"quick": 500, "thorough": 1000},
-    },
+    "C03": {"level": "exploration", "run": simple("C03"),
+            "min_evaluations": {"quick": 5000, "thorough": 100000}, "min_distinct": {"quick": 100, "thorough": 200}},
+    "C04": {"level": "exploration", "run": simple("C04"),
+            "min_evaluations": {"quick": 2000, "thorough": 50000}, "min_distinct": {"quick": 300, "thorough": 500}},
+    "C05": {"level": "exploration", "run": simple("C05"),
+            "min_evaluations": {"quick": 3000, "thorough": 50000}, "min_distinct": {"quick": 300, "thorough": 500}},
+    "C09": {"level": "exploration", "run": run_c09,
+            "min_evaluations": {"quick": 100000, "thorough": 1000000}, "min_distinct": {"quick": 1000, "thorough": 2000}},
+    "C10": {"level": "exploration", "run": simple("C10"),
+            "min_evaluations": {"quick": 20000, "thorough": 200000}, "min_distinct": {"quick": 200, "thorough": 300}},
+    "C14": {"level": "exploration", "run": simple("C14"),
+            "min_evaluations": {"quick": 20000, "thorough": 200000}, "min_distinct": {"quick": 50, "thorough": 60}},
+    "C19": {"level": "exploration", "run": simple("C19"),
+            "min_evaluations": {"quick": 100000, "thorough": 5000000}, "min_distinct": {"quick": 500, "thorough": 1000}},
+    "C20": {"level": "exploration", "run": simple("C20"),
+            "min_evaluations": {"quick": 50000, "thorough": 500000}, "min_distinct": {"quick": 100, "thorough": 150}},
 }
 
 
